@@ -227,8 +227,8 @@ def fnv (xs : List Nat) : Nat :=
 
 def showWalk : Alloc.Walk → String
   | .ok c => "ok " ++ showNatList c
-  | .indexError c => "err IndexError " ++ showNatList c
-  | .silentStop c => "ok " ++ showNatList c
+  | .leaves c => "err PyFAT:5 " ++ showNatList c
+  | .loop c => "err PyFAT:5 " ++ showNatList c
   | .bad c => "err PyFAT:- " ++ showNatList c
   | .free c => "err PyFAT:- " ++ showNatList c
   | .invalid c => "err PyFAT:- " ++ showNatList c
@@ -263,7 +263,6 @@ def volume (args : List String) : String :=
       let p := Alloc.params ty
       match Alloc.chainOf p fat start with
       | .ok cs => s!"ok {fnv (Alloc.freeList p.cv.free fat cs)} {Alloc.lowerHint hint cs}"
-      | .silentStop cs => s!"ok {fnv (Alloc.freeList p.cv.free fat cs)} {Alloc.lowerHint hint cs}"
       | w => showWalk w
     | _, _, _, _ => "bad-op"
   | ["cluster_address", c, spc, fds, bps] =>
